@@ -206,6 +206,16 @@ func encodeMsgRes(m *message.IKEMessage) callRes {
 			return "", err
 		}
 		poolAdd(b)
-		return hx(b), nil
+		return hxOwn(b), nil
 	})
+}
+
+// hxOwn renders a buffer the library RETURNED and then overwrites it: returned buffers are the caller's to reuse
+// (whatever the library still needs it must not keep there)
+func hxOwn(b []byte) string {
+	s := hx(b)
+	for i := range b {
+		b[i] = 0xEE
+	}
+	return s
 }
